@@ -7058,9 +7058,13 @@ R_<TG_, TA_>::initialEnter() noexcept {
 			_core.request.clear();
 
 			if (cancelledByEntryGuards(currentTransition,
-									   pendingTransition))
+									   pendingTransition)) {
 				FFSM2_BREAK();
-			else
+
+				// vetoed: fall back to the last redirect that did pass its guards, or to the initial state
+				_core.registry.requested = currentTransition ?
+					currentTransition.destination : StateID{0};
+			} else
 				currentTransition = pendingTransition;
 
 			pendingTransition.clear();
@@ -7142,7 +7146,8 @@ R_<TG_, TA_>::processTransitions(Transition& currentTransition) noexcept {
 
 			if (cancelledByGuards(currentTransition,
 								  pendingTransition))
-				;
+				// vetoed: fall back to the last transition that did pass its guards (if any)
+				_core.registry.requested = currentTransition.destination;
 			else
 				currentTransition = pendingTransition;
 
